@@ -38,7 +38,7 @@ func (c04) Cases(tier string) int {
 func (c04) Describe() core.Info {
 	return core.Info{
 		Level:          "exploration",
-		Rule:           "typed random programs in which one target rule is perturbed (a head / negated-atom / comparison / function-argument variable replaced by a fresh or wildcard variable, a binding atom dropped, a column of a positive atom turned into a function expression (an input column) over an unbound, self-bound or elsewhere-bound variable, let statements reordered / self-referring / referring to an undefined variable, a let statement over an alias variable that only a variable = variable equality (or a chain of two) connects to its binder, extra negated atoms whose variables are bound by later atoms; in a quarter of the cases the rule's variables are renamed to X0, X1, ..., the names the library generates itself for wildcards) and then submitted in every premise order (all permutations for <= 4 premises, 8 random ones otherwise). Judge 1: independent range-restriction judge on the clause as written (order independent): analysis must not accept an unsafe clause. Judge 2: for accepted safe programs, evaluation must not panic or fail with an unbound-variable class of error, all stored atoms are ground, and the result equals the reference model of the clause as written (so an accepted clause evaluated with a literal ignored is caught). Non-trivial: target rule has a negated atom or comparison and >= 2 premises; distinct by program text modulo the premise order.",
+		Rule:           "typed random programs in which one target rule is perturbed (a head / negated-atom / comparison / function-argument variable replaced by a fresh or wildcard variable, a binding atom dropped, a column of a positive atom turned into a function expression (an input column) over an unbound, self-bound or elsewhere-bound variable, let statements reordered / self-referring / referring to an undefined variable, a let statement over an alias variable that only a variable = variable equality (or a chain of two) connects to its binder, extra negated atoms whose variables are bound by later atoms; in a quarter of the cases the rule's variables are renamed to X0, X1, ..., the names the library generates itself for wildcards) and then submitted in every premise order (all permutations for <= 4 premises, 8 random ones otherwise). Judge 1: independent range-restriction judge on the clause as written (order independent): analysis must not accept an unsafe clause. Judge 2: for accepted safe programs, evaluation must not panic or fail with an unbound-variable class of error, all stored atoms are ground, and the result equals the reference model of the clause as written (so an accepted clause evaluated with a literal ignored is caught). Non-trivial: target rule has a negated atom or comparison and >= 2 premises; distinct by program text modulo the premise order. Further perturbations: a group key that is a function expression, a constant or a wildcard; an equality between two function applications placed anywhere in the body.",
 		Assumptions:    []string{"rejection of a safe clause is not a violation (analysis may insist on a premise order)"},
 		PerCaseTimeout: 120e9,
 	}
